@@ -139,7 +139,7 @@ func loopShare(pk ...string) func(c *Ctx) { return func(c *Ctx) { LoopShare(c, "
 
 func init() {
 	stale := func(pk ...string) func(c *Ctx) { return func(c *Ctx) { StaleResults(c, "default", pk) } }
-	extraRules["C15"] = both(lazyCap("shuffle", "proof"), appendRule("shuffle", "proof"), stale("shuffle", "proof"), loopShare("shuffle"), func(c *Ctx) { CheckMustWrite(c, "C15") }, fresh("shuffle."), roTargetsForShuffle)
+	extraRules["C15"] = both(nilEmpty("shuffle", "proof"), lazyCap("shuffle", "proof"), appendRule("shuffle", "proof"), stale("shuffle", "proof"), loopShare("shuffle"), func(c *Ctx) { CheckMustWrite(c, "C15") }, fresh("shuffle."), roTargetsForShuffle)
 	roTargetsFor := func(names ...string) func(c *Ctx) {
 		return func(c *Ctx) {
 			p := c.Prog("default")
@@ -168,8 +168,8 @@ func init() {
 			CheckFlow(c, prop, specs, reads)
 		}
 	}
-	extraRules["C14"] = both(lazyCap("proof"), appendRule("proof"), stale("proof"), loopShare("proof"), flowOf("C14"), func(c *Ctx) { CheckMustWrite(c, "C14") })
-	extraRules["C13"] = both(lazyCap("share/pvss", "proof/dleq"), appendRule("share/pvss", "proof/dleq", "share"), func(c *Ctx) { CheckMustWrite(c, "C13") }, stale("share/pvss", "proof/dleq"), roTargetsFor("share/pvss.", "proof/dleq."), loopShare("share/pvss", "proof/dleq"),
+	extraRules["C14"] = both(nilEmpty("proof"), lazyCap("proof"), appendRule("proof"), stale("proof"), loopShare("proof"), flowOf("C14"), func(c *Ctx) { CheckMustWrite(c, "C14") })
+	extraRules["C13"] = both(nilEmpty("share/pvss", "proof/dleq"), lazyCap("share/pvss", "proof/dleq"), appendRule("share/pvss", "proof/dleq", "share"), func(c *Ctx) { CheckMustWrite(c, "C13") }, stale("share/pvss", "proof/dleq"), roTargetsFor("share/pvss.", "proof/dleq."), loopShare("share/pvss", "proof/dleq"),
 		func(c *Ctx) { AccGate(c, "default", "C13") })
 	extraRules["C06"] = both(roTargetsFor(").Pair", ").ValidatePairing"), func(c *Ctx) { SiblingSkeletonCheck(c, "default") }, flowOf("C06"))
 	extraRules["__ro_c08"] = roTargetsFor("sign/eddsa.", "sign/schnorr.", "sign/anon.Verify", "sign/anon.Sign")
@@ -242,7 +242,7 @@ func init() {
 		fresh("sign/bls.", "sign/tbls.", "sign/bdn.", "sign/cosi.")(c)
 		ptreq("sign/bls", "sign/tbls", "sign/bdn", "sign/cosi")(c)
 	}
-	extraRules["C07"] = both(appendRule("share"), func(c *Ctx) { CheckMustWrite(c, "C07") }, stale("share"), fresh("share.", "(*share."), ptreq("share"))
+	extraRules["C07"] = both(nilEmpty("share"), appendRule("share"), func(c *Ctx) { CheckMustWrite(c, "C07") }, stale("share"), fresh("share.", "(*share."), ptreq("share"))
 	extraRules["C04"] = func(c *Ctx) {
 		CheckMustWrite(c, "C04")
 		if p := c.Prog("default"); p != nil {
@@ -258,6 +258,7 @@ func init() {
 		LoopShare(c, "default", []string{"share/vss/pedersen", "share/vss/rabin"})
 		appendRule("share/vss", "internal")(c)
 		lazyCap("share/vss")(c)
+		nilEmpty("share/vss")(c)
 		fresh("share/vss/")(c)
 	}
 	extraRules["C11"] = func(c *Ctx) {
@@ -266,8 +267,9 @@ func init() {
 		LoopShare(c, "default", []string{"share/dkg/pedersen", "share/dkg/rabin"})
 		appendRule("share/dkg", "share/vss/rabin")(c)
 		lazyCap("share/dkg")(c)
+		nilEmpty("share/dkg")(c)
 	}
-	extraRules["C12"] = func(c *Ctx) { appendRule("sign/dss")(c); WriterDiscipline(c, "default", "C12"); CheckMustWrite(c, "C12"); AccGate(c, "default", "C12") }
+	extraRules["C12"] = func(c *Ctx) { appendRule("sign/dss")(c); nilEmpty("sign/dss")(c); lazyCap("sign/dss")(c); WriterDiscipline(c, "default", "C12"); CheckMustWrite(c, "C12"); AccGate(c, "default", "C12") }
 }
 
 // decodersReadOnly: decoding never changes the bytes decoded (a decoder that reverses or masks its
